@@ -220,6 +220,7 @@ func init() {
 			// answers for the documents it reads (an instance listed in the index whose document is gone)
 			out = append(out, Instance{Scenario: "c19_endpoints", Params: mustJSON(struct{}{}), Bound: 0, Shards: 2, Note: "Ping reports success only if BOTH services have an endpoint that confirmed (per-service endpoint lists with errors / time-outs)"})
 			out = append(out, Instance{Scenario: "c05_manyvb", Params: mustJSON(struct{}{}), Bound: 0, Shards: 2, Note: "a save for 129 / 300 vBuckets reports success only if every write was confirmed"})
+			out = append(out, Instance{Scenario: "c20_scrapefault", Params: mustJSON(struct{}{}), Bound: 0, Note: "the collector's sequence-number query: a failed query publishes no lag, the next scrape publishes the server's current answer"})
 			out = append(out, Instance{Scenario: "c02_loadfault", Params: mustJSON(struct{}{}), Bound: 0, Shards: 4, Note: "a checkpoint read that is rejected or never answered when a session loads: the outcome is an error (the start-up fails), never 'no checkpoint stored'"})
 			out = append(out, Instance{Scenario: "c13_shutdown", Params: mustJSON(ShutdownParams{Case: "closefault", Checkpoint: "auto", Membership: "static", MaxPoint: 4}), Bound: 0, Note: "a close-stream request that is rejected or never answered while the session is closed: the close returns by the request's deadline"})
 			out = append(out, Instance{Scenario: "c12_afterrebalance", Params: mustJSON(AfterRebParams{CloseFault: true}), Bound: 0, Shards: 8, Note: "the same at the close of a rebalance: the rebalance completes, the member streams again"})
